@@ -312,6 +312,7 @@ fn selector_forms(sels: &[Selector]) -> Vec<&'static str> {
                 match x {
                     Simple::Nth { .. } => add("nth"),
                     Simple::Star => add("star"),
+                    Simple::PseudoEl(_) => add("pseudo-element"),
                     Simple::Class(n) | Simple::Id(n) => {
                         if n.chars().any(|c| c.is_ascii_uppercase()) {
                             add("mixed_case_name")
